@@ -709,6 +709,127 @@ def gen(repo):
     return head + "\n".join(out) + "\nend Gama.StatsGen\n"
 
 
+
+# ======================================================================================================
+# round 9: the statistic sites of the XML writer, with their operands resolved to LocalNetwork accessors
+# ======================================================================================================
+# `Gen/XmlSites.lean` (tools/gen/c12_sites.py, C12) lists every operand `LocalNetworkXML` streams as TEXT
+# (`ml`, `qrr`, `f`, `no`, `em*sc`, `test`, `major`, ...).  Here the local variables of those operands are replaced by
+# their definitions in the enclosing writer function, so that each statistic site reads as an expression over
+# `netinfo-><accessor>(...)` calls; Props/C09Xml.lean joins the two tables (same tag / function / operand) and maps every
+# resolved expression to the regenerated formula of Gen/StatsGen.lean it is the value of.
+
+XML_STAT_FNS = ("equations_summary", "std_dev_summary", "std_error_ellipses", "observations")
+_NORESOLVE = {"i", "j", "k", "sc", "ind", "ID", "netinfo", "out", "pm", "scale"}
+_NOT_A_TYPE = {"else", "return", "case", "goto", "delete", "new", "throw", "typename", "using"}
+
+
+def _decl_of(name, region):
+    """nearest preceding definition `<type> name = expr` (terminated by `;` or by `) {` of an `if (T x = e)`)"""
+    best = None
+    for m in re.finditer(r"(?:\bconst\s+)?\b([A-Za-z_][\w:<>]*)\s*[&*]?\s+" + re.escape(name) +
+                         r"\s*=(?!=)\s*([^;{]+?)\s*(;|\)\s*\{)", region):
+        if m.group(1) in _NOT_A_TYPE:
+            continue
+        best = m
+    return best
+
+
+def _resolve(expr, region, depth=0):
+    """replace identifiers that have a local definition in `region` (text of the function before the site)"""
+    if depth > 8:
+        raise Unreadable("xml statistic site: definitions nest too deep in " + expr)
+    unit = False
+    out, pos = [], 0
+    for m in re.finditer(r"[A-Za-z_]\w*", expr):
+        name = m.group(0)
+        before = expr[:m.start()].rstrip()
+        if before.endswith(("->", ".", "::")) or name in _NORESOLVE:
+            continue
+        d = _decl_of(name, region)
+        if d is None:
+            # an out-parameter: `double major, minor, alpha; netinfo->std_error_ellipse(ID, major, minor, alpha);`
+            if re.search(r"\bdouble\b[^;=]*\b" + name + r"\b[^;=]*;", region):
+                calls = [c for c in re.finditer(r"(netinfo->\w+)\(([^;()]*)\)\s*;", region)
+                         if name in [a.strip() for a in c.group(2).split(",")]]
+                if len(calls) != 1:
+                    raise Unreadable("xml statistic site: `" + name + "` is declared without a value and is not the "
+                                     "argument of exactly one accessor call")
+                args = [a.strip() for a in calls[0].group(2).split(",")]
+                rep = f"{calls[0].group(1)}#{args.index(name)}"
+                out.append(expr[pos:m.start()] + rep)
+                pos = m.end()
+            continue
+        after = region[d.end():]
+        mods = re.findall(r"(?<![\w.>])" + re.escape(name) + r"\s*([-+*/]?=)(?!=)\s*([^;]+);", after)
+        for op, rhs in mods:
+            if (op, rhs.strip()) == ("*=", "sc"):
+                unit = True
+            else:
+                raise Unreadable("xml statistic site: `" + name + "` is modified before it is printed: " + op + rhs)
+        sub, u2 = _resolve(" ".join(d.group(2).split()), region[:d.start()], depth + 1)
+        unit = unit or u2
+        atomic = re.fullmatch(r"[\w>.:-]+(\([^()]*\))?(\([^()]*\))?", sub.replace(" ", "")) is not None
+        out.append(expr[pos:m.start()] + (sub if atomic else "(" + sub + ")"))
+        pos = m.end()
+    out.append(expr[pos:])
+    return "".join(out), unit
+
+
+def gen_xml_sites(repo):
+    import c12_sites
+    repo = Path(repo)
+    raw = (repo / "lib/gnu_gama/xml/localnetworkxml.cpp").read_text(errors="replace")
+    try:
+        sites = c12_sites.parse_sites(raw)
+    except c12_sites.SitesError as e:
+        raise Unreadable("localnetworkxml.cpp sites: " + str(e))
+    text = c12_sites.strip_cpp_comments(raw)
+    lines = text.split("\n")
+    rows = []
+    for s in sites:
+        if s["kind"] != "numeric":
+            continue
+        if not (s["fn"] in XML_STAT_FNS or (s["fn"] == "coordinates" and s["tag"] == "flt")):
+            continue
+        ln = s["line"] - 1
+        # start of the enclosing function: the last line above that begins a LocalNetworkXML member definition
+        st = ln
+        while st > 0 and not re.match(r"\s*void\s+LocalNetworkXML::\w+\s*\(", lines[st]):
+            st -= 1
+        region = "\n".join(lines[st:ln])
+        operand = s["operand"]
+        unit = False
+        core = operand
+        mu = re.fullmatch(r"(\w+)\s*\*\s*sc", operand)
+        if mu:
+            core, unit = mu.group(1), True
+        src, u2 = _resolve(core, region)
+        rows.append((s["tag"], s["fn"], operand, re.sub(r"\s+", "", src), unit or u2))
+    need = {"degrees-of-freedom", "defect", "sum-of-squares", "apriori", "aposteriori", "ratio", "confidence-scale",
+            "flt", "major", "minor", "alpha", "stdev", "qrr", "f", "std-residual", "err-obs", "err-adj"}
+    missing = need - {r[0] for r in rows}
+    if missing:
+        raise Unreadable("localnetworkxml.cpp: statistic sites not found: " + ", ".join(sorted(missing)))
+    q = lambda t: '"' + t.replace("\\", "\\\\").replace('"', '\\"') + '"'
+    body = ",\n".join(f"  ⟨{q(t)}, {q(f)}, {q(o)}, {q(src)}, {'true' if u else 'false'}⟩" for t, f, o, src, u in rows)
+    return ("/-\n  GENERATED by tools/gen/c09_stats.py (gen_xml_sites) from lib/gnu_gama/xml/localnetworkxml.cpp of the\n"
+            "  current tree.  DO NOT EDIT.\n"
+            "  Every numeric operand the XML writer streams in equations_summary, std_dev_summary, std_error_ellipses,\n"
+            "  observations (and <flt> of the covariance matrix in coordinates): tag, writer function and operand text as in\n"
+            "  Gen/XmlSites.lean (C12), `source` = the operand with its local variables replaced by their definitions in the\n"
+            "  writer function (blanks removed; `netinfo->f#k` = k-th argument of the accessor call that fills an\n"
+            "  out-parameter), `unit` = rescaled by the angular unit factor `sc` before printing.\n"
+            "  Props/C09Xml.lean maps every `source` to the formula of Gen/StatsGen.lean it is the value of.\n-/\n"
+            "namespace Gama.StatsXmlSites\n\n"
+            "structure StatSite where\n  tag : String\n  fn : String\n  operand : String\n  source : String\n  unit : Bool\n"
+            "deriving DecidableEq, Repr\n\n"
+            "def sites : List StatSite := [\n" + body + "]\n\nend Gama.StatsXmlSites\n")
+
+
 if __name__ == "__main__":
     import sys
-    print(gen(sys.argv[1] if len(sys.argv) > 1 else "/repo"))
+    if len(sys.argv) > 2 and sys.argv[2] == "xml":
+        print(gen_xml_sites(sys.argv[1]))
+    else:
+        print(gen(sys.argv[1] if len(sys.argv) > 1 else "/repo"))
